@@ -141,3 +141,124 @@ Proof.
     + split; [reflexivity|]. exists f2. split; auto.
   - subst er2. simpl. split; [reflexivity|]. exists f2. split; auto. eapply ext_trans; eauto.
 Qed.
+
+(* ====================================================================== *)
+(* 4. The structural dump of the globals is invariant                      *)
+(* ====================================================================== *)
+Lemma seen_id_iso f l1 l2 seen1 seen2 n1 n2 :
+  inj f -> lrel f l1 l2 -> lrels f seen1 seen2 -> seen_id l1 seen1 n1 = seen_id l2 seen2 n2.
+Proof.
+  intros J L S. induction S as [|x1 x2 t1 t2 Hx S IH]; simpl; auto.
+  rewrite (listrel_length _ _ _ _ S).
+  destruct (Pos.eqb_spec x1 l1) as [->|N1], (Pos.eqb_spec x2 l2) as [->|N2]; auto.
+  - exfalso. apply N2. unfold lrel in *. congruence.
+  - exfalso. apply N1. eapply J; eauto.
+Qed.
+
+Lemma dump_iso f s1 s2 : iso f s1 s2 -> forall fuel l1 l2 seen1 seen2,
+  lrel f l1 l2 -> lrels f seen1 seen2 ->
+  fst (dump fuel (st_heap s1) l1 seen1) = fst (dump fuel (st_heap s2) l2 seen2) /\
+  lrels f (snd (dump fuel (st_heap s1) l1 seen1)) (snd (dump fuel (st_heap s2) l2 seen2)).
+Proof.
+  intro I. pose proof (iso_inj _ _ _ I) as J.
+  induction fuel as [|n IH]; intros l1 l2 seen1 seen2 L S; simpl; [split; auto|].
+  rewrite (seen_id_iso f l1 l2 seen1 seen2 0 0 J L S).
+  destruct (seen_id l2 seen2 0); [split; auto|].
+  destruct (iso_cells _ _ _ I _ _ L) as (v1 & v2 & G1 & G2 & V). rewrite G1, G2.
+  assert (S1 : lrels f (l1 :: seen1) (l2 :: seen2)) by (constructor; auto).
+  rewrite (listrel_length _ _ _ _ S).
+  destruct V; simpl; try (split; auto; fail).
+  - destruct (IH i j (l1 :: seen1) (l2 :: seen2) H S1) as [D1 D2].
+    destruct (dump n (st_heap s1) i (l1 :: seen1)), (dump n (st_heap s2) j (l2 :: seen2)); simpl in *.
+    subst. split; auto.
+  - (* arrays *)
+    assert (F : forall ds a1 a2, lrels f a1 a2 ->
+              fst (fold_left (fun acc i => let '(ds, sn) := acc in
+                                           let '(d, sn') := dump n (st_heap s1) i sn in (ds ++ [d], sn')) xs (ds, a1)) =
+              fst (fold_left (fun acc i => let '(ds, sn) := acc in
+                                           let '(d, sn') := dump n (st_heap s2) i sn in (ds ++ [d], sn')) ys (ds, a2)) /\
+              lrels f (snd (fold_left (fun acc i => let '(ds, sn) := acc in
+                                           let '(d, sn') := dump n (st_heap s1) i sn in (ds ++ [d], sn')) xs (ds, a1)))
+                      (snd (fold_left (fun acc i => let '(ds, sn) := acc in
+                                           let '(d, sn') := dump n (st_heap s2) i sn in (ds ++ [d], sn')) ys (ds, a2)))).
+    { clear -H IH. induction H as [|x1 x2 t1 t2 Hx X IHX]; intros ds a1 a2 A; simpl; [split; auto|].
+      destruct (IH x1 x2 a1 a2 Hx A) as [D1 D2].
+      destruct (dump n (st_heap s1) x1 a1), (dump n (st_heap s2) x2 a2); simpl in *. subst. apply IHX; auto. }
+    destruct (F [] _ _ S1) as [F1 F2].
+    destruct (fold_left _ xs _), (fold_left _ ys _); simpl in *. subst. split; auto.
+  - (* maps *)
+    rewrite <- H.
+    assert (F : forall ks ds a1 a2, lrels f a1 a2 ->
+              fst (fold_left (fun acc k => let '(ds, sn) := acc in
+                      match plookup k (pairs m1) with
+                      | Some i => let '(d, sn') := dump n (st_heap s1) i sn in (ds ++ [Lst [Str k; d]], sn')
+                      | None => (ds ++ [Lst [Str k; Sym (s_ "nil")]], sn)
+                      end) ks (ds, a1)) =
+              fst (fold_left (fun acc k => let '(ds, sn) := acc in
+                      match plookup k (pairs m2) with
+                      | Some i => let '(d, sn') := dump n (st_heap s2) i sn in (ds ++ [Lst [Str k; d]], sn')
+                      | None => (ds ++ [Lst [Str k; Sym (s_ "nil")]], sn)
+                      end) ks (ds, a2)) /\
+              lrels f (snd (fold_left (fun acc k => let '(ds, sn) := acc in
+                      match plookup k (pairs m1) with
+                      | Some i => let '(d, sn') := dump n (st_heap s1) i sn in (ds ++ [Lst [Str k; d]], sn')
+                      | None => (ds ++ [Lst [Str k; Sym (s_ "nil")]], sn)
+                      end) ks (ds, a1)))
+                      (snd (fold_left (fun acc k => let '(ds, sn) := acc in
+                      match plookup k (pairs m2) with
+                      | Some i => let '(d, sn') := dump n (st_heap s2) i sn in (ds ++ [Lst [Str k; d]], sn')
+                      | None => (ds ++ [Lst [Str k; Sym (s_ "nil")]], sn)
+                      end) ks (ds, a2)))).
+    { clear -H0 IH. induction ks as [|k t IHk]; intros ds a1 a2 A; simpl; [split; auto|].
+      pose proof (framerel_plookup f k _ _ H0) as G.
+      destruct (plookup k (pairs m1)) as [i1|], (plookup k (pairs m2)) as [i2|]; simpl in G; try contradiction.
+      - destruct (IH i1 i2 a1 a2 G A) as [D1 D2].
+        destruct (dump n (st_heap s1) i1 a1), (dump n (st_heap s2) i2 a2); simpl in *. subst. apply IHk; auto.
+      - apply IHk; auto. }
+    destruct (F (order m1) [] _ _ S1) as [F1 F2].
+    destruct (fold_left _ (order m1) _), (fold_left _ (order m1) _); simpl in *. subst. split; auto.
+Qed.
+
+Lemma insert_sorted_rel f x1 x2 l1 l2 :
+  bindrel f x1 x2 -> framerel f l1 l2 -> framerel f (insert_sorted x1 l1) (insert_sorted x2 l2).
+Proof.
+  intros X L. induction L as [|y1 y2 t1 t2 Hy L IH]; simpl; [constructor; [exact X | constructor]|].
+  destruct X as [X1 X2], Hy as [Y1 Y2]. unfold eqrel in X1, Y1. rewrite <- X1, <- Y1.
+  destruct (str_ltb (fst x1) (fst y1)).
+  - constructor; [split; assumption | constructor; [split; assumption | exact L]].
+  - constructor; [split; assumption | apply IH].
+Qed.
+Lemma sort_frame_rel f g1 g2 : framerel f g1 g2 -> framerel f (sort_frame g1) (sort_frame g2).
+Proof.
+  intro G. unfold sort_frame. induction G; simpl; [constructor|]. apply insert_sorted_rel; auto.
+Qed.
+
+(* the hook's dump of the globals (values and sharing structure) does not see the renaming *)
+Theorem dump_globals_iso f s1 s2 : iso f s1 s2 -> dump_globals s1 = dump_globals s2.
+Proof.
+  intro I. unfold dump_globals. generalize value_depth. intro d.
+  pose proof (sort_frame_rel _ _ _ (iso_glob _ _ _ I)) as G.
+  assert (F : forall ds a1 a2, lrels f a1 a2 ->
+     fst (fold_left (fun acc nl => let '(ds, sn) := acc in
+                       let '(d, sn') := dump d (st_heap s1) (snd nl) sn in
+                       (ds ++ [Lst [Str (fst nl); d]], sn')) (sort_frame (st_globals s1)) (ds, a1)) =
+     fst (fold_left (fun acc nl => let '(ds, sn) := acc in
+                       let '(d, sn') := dump d (st_heap s2) (snd nl) sn in
+                       (ds ++ [Lst [Str (fst nl); d]], sn')) (sort_frame (st_globals s2)) (ds, a2))).
+  { induction G as [|x1 x2 t1 t2 [Hx1 Hx2] G IH]; intros ds a1 a2 A; cbn [fold_left]; auto.
+    destruct (dump_iso _ _ _ I d (snd x1) (snd x2) a1 a2 Hx2 A) as [D1 D2].
+    unfold eqrel in Hx1. rewrite <- Hx1.
+    destruct (dump d (st_heap s1) (snd x1) a1) as [d1 q1], (dump d (st_heap s2) (snd x2) a2) as [d2 q2].
+    cbn [fst snd] in D1, D2. subst d2. apply IH; auto. }
+  specialize (F [] [] [] ltac:(constructor)).
+  destruct (fold_left _ (sort_frame (st_globals s1)) _) as [r1 q1],
+           (fold_left _ (sort_frame (st_globals s2)) _) as [r2 q2].
+  cbn [fst] in F. subst. reflexivity.
+Qed.
+
+(* everything the platform and the verif hooks observe *)
+Theorem iso_same_observables f s1 s2 : iso f s1 s2 -> same_observables s1 s2.
+Proof.
+  intro I. unfold same_observables. repeat split; try (destruct I; assumption).
+  eapply dump_globals_iso; eauto.
+Qed.
